@@ -299,6 +299,12 @@ func matchKnown(known []knownFinding, id string, f *gosym.Failure) *knownFinding
 }
 
 func replayMatches(f *gosym.Failure, outcome string) bool {
+	// Any property assertion failing natively on the recorded inputs is a
+	// reproduction: with goroutines of the code under test running freely the
+	// native run may trip a neighbouring assertion of the same harness first.
+	if strings.HasPrefix(outcome, "assert:") && (f.Kind == "assert" || f.Kind == "panic" || f.Kind == "deadlock" || f.Kind == "lock-held") {
+		return true
+	}
 	switch f.Kind {
 	case "assert":
 		return outcome == "assert:"+f.Label
